@@ -151,6 +151,47 @@ func runC01(c *Ctx) {
 	for _, src := range c01Targeted {
 		run("targeted", src, input)
 	}
+	// every evaluate option with boundary values: clock values the System types cannot hold, and
+	// environment variables of every shape (nested / empty / mixed collections, elements, resources)
+	clockSrcs := []string{"now()", "today()", "timeOfDay()", "now() - 1 day", "today() + 1 year", "now().toString()", "now() = now()", "today() < now()", "timeOfDay() + 1 hour"}
+	for _, tm := range []time.Time{time.Date(10000, 1, 1, 0, 0, 0, 0, time.UTC), time.Date(9999, 12, 31, 23, 59, 59, 999999999, time.UTC), time.Date(0, 1, 1, 0, 0, 0, 0, time.UTC), time.Date(-1, 6, 1, 0, 0, 0, 0, time.UTC), time.Date(1, 1, 1, 0, 0, 0, 0, time.UTC),
+		time.Date(2020, 1, 1, 0, 0, 0, 0, time.FixedZone("x", 25*3600)), time.Date(2020, 1, 1, 0, 0, 0, 0, time.FixedZone("x", 24*3600)), time.Date(2020, 1, 1, 0, 0, 0, 0, time.FixedZone("x", -24*3600)), time.Date(2020, 1, 1, 0, 0, 0, 0, time.FixedZone("x", 23*3600+59*60)),
+		time.Date(2020, 1, 1, 0, 0, 0, 0, time.FixedZone("x", 3601)), time.Date(2020, 1, 1, 0, 0, 0, 0, time.FixedZone("x", -1)), time.Date(292277026596, 12, 4, 15, 30, 7, 0, time.UTC), {}} {
+		for _, src := range clockSrcs {
+			e, err := fhirpath.Compile(src)
+			if err != nil {
+				continue
+			}
+			o := safeEval(func() (system.Collection, error) { return e.Evaluate(input, evalopts.OverrideTime(tm)) })
+			c.Observe("clock "+src+" @ "+tm.String(), false)
+			c.Law(!o.Panicked && !o.TimedOut, "C01/evaluate-panic", "Evaluate returns a collection or an error", src+" with OverrideTime("+tm.String()+")", o.PanicMsg)
+		}
+	}
+	envShapes := map[string]any{
+		"nested":      system.Collection{system.Collection{system.Integer(1)}},
+		"nested2":     system.Collection{system.Integer(1), system.Collection{system.Collection{}}},
+		"emptyInside": system.Collection{system.Collection{}},
+		"mixed":       system.Collection{system.Integer(1), fhir.String("s"), &dtpb.HumanName{}, system.Boolean(true)},
+		"resource":    input[0],
+		"emptyElem":   &dtpb.HumanName{},
+		"bigColl":     make(system.Collection, 0, 8),
+	}
+	var shapeNames []string
+	for k := range envShapes {
+		shapeNames = append(shapeNames, k)
+	}
+	sort.Strings(shapeNames)
+	for _, k := range shapeNames {
+		for _, src := range []string{"%x", "%x = %x", "%x != %x", "%x.count()", "%x.first()", "%x.distinct()", "%x.where($this = 1)", "%x.select($this)", "%x.exists()", "%x.toString()", "%x & 'a'", "%x + 1", "%x < 1", "%x is Integer", "%x.children()", "%x.descendants()", "%x.intersect(%x)", "%x.exclude(%x)", "%x.isDistinct()", "%x.name", "Patient.where(%x.exists())", "iif(%x.exists(), %x, 1)", "%x[0]", "-%x", "%x.not()", "%x and true"} {
+			e, err := fhirpath.Compile(src)
+			if err != nil {
+				continue
+			}
+			o := safeEval(func() (system.Collection, error) { return e.Evaluate(input, evalopts.EnvVariable("x", envShapes[k])) })
+			c.Observe("env "+k+" "+src, false)
+			c.Law(!o.Panicked && !o.TimedOut, "C01/evaluate-panic", "Evaluate returns a collection or an error", src+" with %x = "+k+" "+fmt.Sprint(envShapes[k]), o.PanicMsg)
+		}
+	}
 	// a Decimal with a huge exponent (in a child process, so that nothing is left running here)
 	{
 		ctx, cancel := context.WithTimeout(context.Background(), 8*time.Second)
